@@ -71,9 +71,9 @@ func DrawOp(t *rapid.T, k ops.Kind, num NumFn, label string) ops.Op {
 func Styling(t *rapid.T, num NumFn, col func(*rapid.T, string) ops.ColorV, label string) ops.Op {
 	switch rapid.IntRange(0, 9).Draw(t, label+".kind") {
 	case 0:
-		return ops.OpSetCSel(Sel(t, label+".csel"))
+		return ops.OpSetCSel(SelArg(t, label+".csel"))
 	case 1:
-		return ops.OpSetNSel(Sel(t, label+".nsel"))
+		return ops.OpSetNSel(SelArg(t, label+".nsel"))
 	case 2, 3, 4:
 		incr := rapid.IntRange(0, 3).Draw(t, label+".incr") == 0
 		adj := uint8(0)
